@@ -1,7 +1,21 @@
-"""C14 — signals.  Spec: spec/Signals.tla (+SignalsOps); trace spec: spec/SignalsTrace.tla."""
+"""C14 — signals.  Spec: spec/Signals.tla (+SignalsOps); trace spec: spec/SignalsTrace.tla.
+
+Operation alphabet of the driver (= of the model, see Signals.tla):
+  connect s n h ws uk us      callback h, weak arguments ws (0..2 ids), user arguments us handed over as
+                              uk = "t" tuple, "f" fresh list, "g" one-shot iterator, "c" THE CALLER'S OWN LIST (whatever it holds now)
+  disconnect s n h ws uk us   by arguments: names the descriptor (h, ws, us); any descriptor, connected or not
+  disconnect_by_key s n k     any key the caller still holds, also keys of senders that are gone
+  mutate us                   the caller changes its own list (after having connected with it)
+  collect w                   the application drops weak argument w (observed: dead there and then)
+  drop_sender s keep          the application drops the sender in slot s, keeping (1) or forgetting (0) the keys it got for it;
+                              observed: dead by reference counting alone / after gc.collect(); a fresh sender takes the slot
+  emit s n
+"""
 from __future__ import annotations
 
+import concurrent.futures as cf
 import gc
+import itertools
 import json
 import weakref
 
@@ -47,6 +61,7 @@ class World:
             pass
 
         self.senders = {1: SenderA(), 2: SenderB()}
+        self.sgen = {1: 0, 2: 0}   # generation of the sender in each slot (drop_sender puts a fresh one there)
         self.weak = {w: _WeakArg(w) for w in range(1, nweak + 1)}
         self.nweak = nweak
         self.nn = nn
@@ -55,12 +70,13 @@ class World:
         self.ev = []
         self.nextk = 1
         self.nextemit = 1
-        self.keys = {}    # tag -> Key object
+        self.keys = {}    # k -> Key object, as long as the caller holds it
+        self.kinfo = {}   # k -> (slot, generation) of the sender it was handed out for
         self.inuse = {}   # weak argument id -> number of running handler calls that received it
-        self.utag = {}    # connection k -> user argument given at connect time (shared by duplicate connections)
-        self.info = {}    # connection k -> (s, n, h, w)
-        self.shadow = {(s, n): [] for s in (1, 2) for n in (1, 2)}  # harness belief: list of (k, h, w)
+        self.clist = [1]  # the caller's own list, passed as user_args again and again and changed in between
+        self.shadow = {(s, n): [] for s in (1, 2) for n in (1, 2)}  # harness belief: list of (k, h, ws, us)
         self.depth = 0
+        self.stack_sn = []
         self.handlers = {h: self._mk_handler(h) for h in range(1, nh + 1)}
 
     def _mk_handler(self, h):
@@ -72,15 +88,28 @@ class World:
         handler.__name__ = f"h{h}"
         return handler
 
+    def _uargs(self, uk, us):
+        """The user-arguments object handed to urwid and its content at this moment."""
+        if uk == "c":
+            return self.clist, list(self.clist)
+        us = [int(x) for x in us]
+        if uk == "t":
+            return tuple(us), us
+        if uk == "g":
+            return iter(list(us)), us
+        return list(us), us
+
     # ---- abstract operations ---------------------------------------------------------------
-    def connect(self, s, n, h, w, u=None, victim=0):
+    def connect(self, s, n, h, ws=(), uk="t", us=None, victim=0):
         k = self.nextk
-        u = k if u is None else u
+        ws = [int(w) for w in ws]
+        if us is None:
+            us = [k]
         exc = ""
-        if w and w not in self.weak:
+        if any(w not in self.weak for w in ws):
             return 0
-        wa = [self.weak[w]] if w else []
-        if victim and victim in self.weak and victim != w and not self.inuse.get(victim):
+        wa = [self.weak[w] for w in ws]
+        if victim and victim in self.weak and victim not in ws and not self.inuse.get(victim):
             # another weak argument dies WHILE connect() is running: the iterable of weak arguments drops its last reference
             world, inner = self, list(wa)
 
@@ -91,43 +120,44 @@ class World:
                     del inner[:]          # keep no reference behind (this class object lives until the cyclic collector runs)
                     return iter(items)
             wa = _Dying()
+        uobj, us = self._uargs(uk, us)
         try:
-            self.keys[k] = self.urwid.connect_signal(self.senders[s], NAMES[n], self.handlers[h], weak_args=wa, user_args=[u])
-            self.shadow[(s, n)].append((k, h, w))
-            self.utag[k] = u
-            self.info[k] = (s, n, h, w)
+            key = self.urwid.connect_signal(self.senders[s], NAMES[n], self.handlers[h], weak_args=wa, user_args=uobj)
+            self.keys[k] = key
+            self.kinfo[k] = (s, self.sgen[s])
+            self.shadow[(s, n)].append((k, h, tuple(ws), tuple(us)))
             self.nextk += 1
+            del key
         except Exception as ex:  # noqa: BLE001
             exc = type(ex).__name__
-        self.ev.append({"t": "connect", "s": s, "n": n, "h": h, "w": w, "k": k, "u": u, "exc": exc})
+        del uobj, wa
+        self.ev.append({"t": "connect", "s": s, "n": n, "h": h, "ws": ws, "us": us, "ut": uk, "k": k, "exc": exc})
         return k
 
-    def connect_kill(self, s, n, h, w, victim):
-        return self.connect(s, n, h, w, None, victim)
+    def connect_kill(self, s, n, h, ws, victim):
+        return self.connect(s, n, h, ws, "f", None, victim)
 
-    def connect_dup(self, k0):
-        """Connect once more exactly what connection k0 connected: same sender, name, callback, weak and user arguments."""
-        if k0 not in self.info:
-            return 0
-        s, n, h, w = self.info[k0]
-        return self.connect(s, n, h, w, self.utag[k0])
-
-    def disconnect(self, s, n, h, w, k):
+    def disconnect(self, s, n, h, ws=(), uk="t", us=()):
         exc = ""
-        wa = [self.weak[w]] if (w and w in self.weak) else []
-        if w and w not in self.weak:
+        ws = [int(w) for w in ws]
+        if any(w not in self.weak for w in ws):
             # cannot name a dead weak argument any more; the handler is gone anyway
             return
-        u = self.utag.get(k, k)
+        wa = [self.weak[w] for w in ws]
+        uobj, us = self._uargs(uk, us)
         try:
-            self.urwid.disconnect_signal(self.senders[s], NAMES[n], self.handlers[h], weak_args=wa, user_args=[u])
+            self.urwid.disconnect_signal(self.senders[s], NAMES[n], self.handlers[h], weak_args=wa, user_args=uobj)
         except Exception as ex:  # noqa: BLE001
             exc = type(ex).__name__
+        del uobj, wa
+        exact = 0
         if n in (1, 2):   # belief only: the first connection made with these arguments goes
-            hit = next((e for e in self.shadow[(s, n)] if e[1] == h and e[2] == w and self.utag.get(e[0]) == u), None)
+            d = (h, tuple(ws), tuple(us))
+            hit = next((e for e in self.shadow[(s, n)] if e[1:] == d), None)
             if hit is not None:
+                exact = 1
                 self.shadow[(s, n)].remove(hit)
-        self.ev.append({"t": "disconnect", "s": s, "n": n, "h": h, "w": w, "k": u, "exc": exc})
+        self.ev.append({"t": "disconnect", "s": s, "n": n, "h": h, "ws": ws, "us": us, "ut": uk, "exc": exc, "exact": exact})
 
     def disconnect_by_key(self, s, n, k):
         exc = ""
@@ -139,7 +169,13 @@ class World:
             exc = type(ex).__name__
         if n in (1, 2):
             self.shadow[(s, n)] = [e for e in self.shadow[(s, n)] if e[0] != k]
-        self.ev.append({"t": "disconnect_by_key", "s": s, "n": n, "k": k, "exc": exc})
+        self.ev.append({"t": "disconnect_by_key", "s": s, "n": n, "k": k, "exc": exc,
+                        "stale": int(self.kinfo[k] != (s, self.sgen[s]))})
+
+    def mutate(self, us):
+        """The caller goes on using the list object it passed to connect_signal()."""
+        self.clist[:] = [int(x) for x in us]
+        self.ev.append({"t": "mutate", "us": list(self.clist)})
 
     def collect(self, w):
         if w not in self.weak:
@@ -149,18 +185,43 @@ class World:
             # dropping our reference now would not collect it (and it would die silently when that frame returns)
             return
         # event first: the weakref callbacks fire synchronously when the last reference goes
-        self.ev.append({"t": "collect", "w": w})
+        e = {"t": "collect", "w": w, "dead": True}
+        self.ev.append(e)
         for p in self.shadow:
-            self.shadow[p] = [e for e in self.shadow[p] if e[2] != w]
+            self.shadow[p] = [x for x in self.shadow[p] if w not in x[2]]
+        ref = weakref.ref(self.weak[w])
         del self.weak[w]
+        e["dead"] = ref() is None      # by reference counting alone: the machinery holds weak references only
+
+    def drop_sender(self, s, keep=1):
+        """The application lets go of the sender in slot s; it keeps (or forgets) the keys connect_signal() returned for it."""
+        if self.depth:
+            return
+        gen = self.sgen[s]
+        mine = [k for k, sg in self.kinfo.items() if sg == (s, gen) and k in self.keys]
+        if not keep:
+            for k in mine:
+                del self.keys[k]
+        nconn = sum(len(self.shadow[(s, n)]) for n in (1, 2))
+        for n in (1, 2):
+            self.shadow[(s, n)] = []
+        snd = self.senders[s]
+        ref = weakref.ref(snd)
+        self.senders[s] = type(snd)()
+        self.sgen[s] = gen + 1
+        del snd
+        dead_rc = ref() is None
+        if not dead_rc:
+            gc.collect()
+        self.ev.append({"t": "drop_sender", "s": s, "kept": len(mine) if keep else 0, "nconn": nconn,
+                        "dead_rc": dead_rc, "dead_gc": ref() is None})
 
     def emit(self, s, n):
         eid = self.nextemit
         self.nextemit += 1
         self.ev.append({"t": "emit_begin", "s": s, "n": n, "id": eid})
         self.depth += 1
-        self.stack_sn = getattr(self, "stack_sn", [])
-        self.stack_sn.append((s, n, eid))
+        self.stack_sn.append((s, n, eid, set()))
         exc = ""
         ret = False
         try:
@@ -175,16 +236,21 @@ class World:
     def _abs_arg(self, a):
         if isinstance(a, _WeakArg):
             return 1000 + a.w
-        if isinstance(a, int):
+        if isinstance(a, int) and not isinstance(a, bool):
             return a
         return -1
 
     def _called(self, h, args):
-        s, n, eid = self.stack_sn[-1] if getattr(self, "stack_sn", None) else (0, 0, 0)
+        s, n, eid, seen = self.stack_sn[-1] if self.stack_sn else (0, 0, 0, set())
         aa = [self._abs_arg(a) for a in args]
-        # the user tag identifies the connection
-        tags = [a for a in aa if 0 < a < 1000]
-        k = tags[0] if tags else 0
+        # harness belief (used to pick the targets of the handler's behaviour only): which connection is this?  The first one
+        # made with these arguments that this emit has not called yet.
+        d = (h, tuple(a - 1000 for a in aa if 1000 < a < 2000), tuple(a for a in aa if 0 <= a < 1000))
+        k = 0
+        if s:
+            cands = [e[0] for e in self.shadow[(s, n)] if e[1:] == d]
+            k = next((c for c in cands if c not in seen), cands[0] if cands else 0)
+            seen.add(k)
         b = self.beh[h - 1]
         ret = b == "true"
         self.ev.append({"t": "call", "k": k, "h": h, "args": aa, "emit": eid, "ret": ret})
@@ -208,13 +274,13 @@ class World:
             self.disconnect_by_key(s, n, live[pos - 1][0])
         elif b == "discLater" and pos is not None and pos + 1 < len(live):
             e = live[pos + 1]
-            # alternate between by-key and by-arguments disconnection
-            if e[0] % 2:
+            # alternate between by-key and by-arguments disconnection (by arguments only when they name that connection alone)
+            if e[0] % 2 or e[0] not in self.keys or sum(1 for x in live if x[1:] == e[1:]) > 1:
                 self.disconnect_by_key(s, n, e[0])
             else:
-                self.disconnect(s, n, e[1], e[2], e[0])
+                self.disconnect(s, n, e[1], e[2], "tf"[e[0] % 4 // 2], e[3])
         elif b == "connectNew" and len(live) < self.maxconn:
-            self.connect(s, n, self.nh, 0)
+            self.connect(s, n, self.nh, (), "t", [1])
         elif b == "emitAgain" and self.depth < 2:
             self.emit(s, (n % self.nn) + 1)
         elif b == "killWeak" and 1 in self.weak:
@@ -234,8 +300,10 @@ class World:
         self.handlers.clear()
         self.keys.clear()
         self.shadow.clear()
+        rc = all(r() is None for r in srefs)
         gc.collect()
-        ev.append({"t": "drop", "senders_dead": all(r() is None for r in srefs), "weak_dead": all(r() is None for r in wrefs)})
+        ev.append({"t": "drop", "senders_dead_rc": rc, "senders_dead": all(r() is None for r in srefs),
+                   "weak_dead": all(r() is None for r in wrefs)})
         return ev
 
 
@@ -251,31 +319,43 @@ def run_script(beh, nh, script, nweak=1, maxconn=3, nn=2):
 
 
 def script_from_behaviour(b):
-    """Top-level operations of a Signals.tla behaviour (the emit's inner steps are the code's job)."""
+    """Top-level operations of a Signals.tla behaviour (the emit's inner steps are the code's job); the model's calls per
+    finished emit as descriptors (h, ws, us)."""
     script = []
     calls = []  # model's call order per finished emit
+    desc = {}
     for st in b[1:]:
         la = st["last"]
         a = la["a"]
         op = la["op"]
         if op == "connect":
-            script.append(("connect", a[0], a[1], a[2], a[3]))
+            script.append(("connect", a[0], a[1], a[2], list(a[3]), a[4], list(a[5])))
         elif op == "connect_unregistered":
-            script.append(("connect", a[0], a[1], a[2], 0))
+            script.append(("connect", a[0], a[1], a[2], [], "t", [1]))
         elif op == "disconnect":
-            script.append(("disconnect", a[0], a[1], a[2], a[3], a[4]))
+            script.append(("disconnect", a[0], a[1], a[2], list(a[3]), a[4], list(a[5])))
         elif op == "disconnect_by_key":
             script.append(("disconnect_by_key", a[0], a[1], a[2]))
+        elif op == "mutate":
+            script.append(("mutate", list(a[0])))
+        elif op == "drop_sender":
+            script.append(("drop_sender", a[0], 1 if a[1] else 0))
         elif op == "collect":
             if not st["stack"]:
                 script.append(("collect", a[0]))
             else:
-                return None, None  # a collection between two handler calls cannot be scheduled from outside
+                return None, None, None  # a collection between two handler calls cannot be scheduled from outside
         elif op == "emit":
             script.append(("emit", a[0], a[1]))
+        elif op == "call":
+            desc[a[0]] = [a[1], list(a[2]), list(a[3])]
         elif op == "emit_end":
-            calls.append(a[2])
-    return script, calls
+            calls.append([desc[k] for k in a[2]])
+    beh = [x if x != "unset" else "plain" for x in b[-1]["beh"]]
+    return script, calls, beh
+
+
+WSQ = [(), (1,), (2,), (1, 2), (2, 1)]
 
 
 def directed_scripts():
@@ -283,81 +363,187 @@ def directed_scripts():
     recursive emit finds one), the weak argument on each position in turn, emitted twice; and duplicate connections
     (same callback, same arguments) with one or two disconnects by arguments / by key before and during an emit."""
     out = []
+
+    def C(s, n, h, ws=(), uk="t", us=None):
+        return ("connect", s, n, h, list(ws), uk, us)
+
     for b1 in BEHS:
         for b2 in BEHS:
             for b3 in BEHS:
                 for wpos in (0, 1, 2, 3):
-                    ws = [1 if wpos == i else 0 for i in (1, 2, 3)]
-                    script = [("connect", 1, 1, 1, ws[0]), ("connect", 1, 1, 2, ws[1]), ("connect", 1, 1, 3, ws[2]), ("connect", 1, 2, 4, 0),
-                              ("emit", 1, 1), ("emit", 1, 1)]
-                    out.append(([b1, b2, b3, "plain"], 4, script))
+                    ws = [[1] if wpos == i else [] for i in (1, 2, 3)]
+                    script = [C(1, 1, 1, ws[0]), C(1, 1, 2, ws[1]), C(1, 1, 3, ws[2]), C(1, 2, 4), ("emit", 1, 1), ("emit", 1, 1)]
+                    out.append(("triples", [b1, b2, b3, "plain"], 4, script))
     # a handler is connected while the weak argument of an already connected handler dies (inside connect())
     for b in ("plain", "true", "discSelf"):
         for pos in (0, 1, 2):
-            pre = [("connect", 1, 1, 1, 2), ("connect", 1, 1, 2, 0), ("connect", 1, 1, 3, 2)][:pos + 1]
-            script = pre + [("connect_kill", 1, 1, 4, 0, 2), ("emit", 1, 1), ("connect_kill", 1, 1, 4, 1, 2), ("emit", 1, 1), ("emit", 1, 2)]
-            out.append(([b, "plain", "plain", "true"], 4, script))
+            pre = [C(1, 1, 1, [2]), C(1, 1, 2), C(1, 1, 3, [2])][:pos + 1]
+            script = pre + [("connect_kill", 1, 1, 4, [], 2), ("emit", 1, 1), ("connect_kill", 1, 1, 4, [1], 2), ("emit", 1, 1), ("emit", 1, 2)]
+            out.append(("connect_kill", [b, "plain", "plain", "true"], 4, script))
     for b in BEHS:
         for ndup in (1, 2):
             for ndisc in (0, 1, 2, 3):
                 for mode in ("args", "key"):
-                    script = [("connect", 1, 1, 1, 0), ("connect", 1, 1, 2, 0)] + [("connect_dup", 2)] * ndup + [("connect", 1, 1, 3, 0), ("emit", 1, 1)]
-                    script += [("disconnect", 1, 1, 2, 0, 2) if mode == "args" else ("disconnect_by_key", 1, 1, 2)] * ndisc
-                    script += [("emit", 1, 1), ("connect_dup", 1), ("emit", 1, 1)]
-                    out.append(([b, "plain", "true", "plain"], 4, script))
+                    dup = C(1, 1, 2, (), "t", [7])
+                    script = [C(1, 1, 1), dup] + [dup] * ndup + [C(1, 1, 3), ("emit", 1, 1)]
+                    script += [("disconnect", 1, 1, 2, [], "t", [7]) if mode == "args" else ("disconnect_by_key", 1, 1, 2)] * ndisc
+                    script += [("emit", 1, 1), C(1, 1, 1, (), "t", [8]), C(1, 1, 1, (), "f", [8]), ("emit", 1, 1)]
+                    out.append(("duplicates", [b, "plain", "true", "plain"], 4, script))
+    # ---- descriptors that differ in the NUMBER / ORDER of weak arguments only (one a prefix of the other, or not) -----------
+    # two connections of one callback with the same user arguments and weak arguments c1, c2; a disconnect naming weak
+    # arguments d (which may name the first, the second, or neither of them), twice
+    for c1 in WSQ:
+        for c2 in WSQ:
+            for d in WSQ:
+                for b in ("plain", "true"):
+                    script = [C(1, 1, 1, c1, "t", [5]), C(1, 1, 1, c2, "f", [5]), C(1, 1, 2, (), "t", [6]), ("emit", 1, 1),
+                              ("disconnect", 1, 1, 1, list(d), "t", [5]), ("emit", 1, 1),
+                              ("disconnect", 1, 1, 1, list(d), "f", [5]), ("emit", 1, 1), ("collect", 1), ("emit", 1, 1)]
+                    out.append(("weak_descriptors", [b, "plain"], 2, script))
+    # ---- how the user arguments are handed over, and what the caller does with its list afterwards ---------------------------
+    for ck in "tfcg":
+        for dk in "tfcg":
+            for mut in (None, [7, 9], [8], [], [9, 7]):
+                for dnow in (0, 1):
+                    if dk == "c" and not dnow:
+                        continue
+                    script = [("mutate", [7]), C(1, 1, 1, (), ck, [7]), C(1, 1, 2, [1], "t", [3]), ("emit", 1, 1)]
+                    if mut is not None:
+                        script.append(("mutate", mut))
+                    script += [("emit", 1, 1), C(2, 1, 1, (), "c", None), ("emit", 2, 1), ("emit", 1, 1),
+                               ("disconnect", 1, 1, 1, [], dk, (mut if (dnow and mut is not None) else [7])), ("emit", 1, 1),
+                               ("disconnect", 2, 1, 1, [], dk, [7]), ("emit", 2, 1), ("mutate", [4]), ("emit", 2, 1), ("emit", 1, 1)]
+                    out.append(("user_arg_kinds", ["plain", "true"], 2, script))
+    # ---- the application drops a sender: with / without connections, after disconnecting them, holding its keys or not --------
+    for nconn in (0, 1, 2):
+        for ws in ((), (1,)):
+            for disc in ("none", "key", "args"):
+                for keep in (0, 1):
+                    for pre_emit in (0, 1):
+                        for b in ("plain", "discSelf"):
+                            script = [C(1, 1, i, ws, "t", [4 + i]) for i in range(1, nconn + 1)] + [C(2, 1, 1, ws, "t", [5])]
+                            if pre_emit:
+                                script.append(("emit", 1, 1))
+                            if disc == "key":
+                                script.append(("disconnect_by_key", 1, 1, 1))
+                            elif disc == "args":
+                                script.append(("disconnect", 1, 1, 1, list(ws), "t", [5]))
+                            script += [("drop_sender", 1, keep), C(1, 1, 2, (), "t", [9]), ("disconnect_by_key", 1, 1, 1), ("emit", 1, 1),
+                                       ("drop_sender", 1, 1 - keep), ("collect", 1), ("emit", 2, 1), ("drop_sender", 2, keep), ("emit", 2, 1)]
+                            out.append(("sender_dropped", [b, "plain"], 2, script))
     return out
+
+
+def _wseqs(nweak):
+    ids = range(1, nweak + 1)
+    return [()] + [(a,) for a in ids] + [p for p in itertools.permutations(ids, 2)]
+
+
+def _vary_ws(rng, ws, nweak):
+    """A weak-argument sequence related to ws: a prefix, an extension, a permutation, or something else."""
+    ws = tuple(ws)
+    r = rng.random()
+    if r < 0.35 and ws:
+        return ws[:-1]
+    if r < 0.7 and len(ws) < 2:
+        rest = [w for w in range(1, nweak + 1) if w not in ws]
+        if rest:
+            return ws + (rng.choice(rest),)
+    if r < 0.8 and len(ws) == 2:
+        return ws[::-1]
+    return rng.choice(_wseqs(nweak))
 
 
 def random_script(rng, nh, nweak, length):
     script = []
-    known = []  # (s, n, h, w, k) as they will be assigned
-    k = 1
+    known = []      # (s, n, h, ws, us) of the connects issued so far
+    clist = [1]     # content of the caller's list as the script goes
+    nconn = 0
+    fresh = 2
+    wseqs = _wseqs(nweak)
     for _ in range(length):
         r = rng.random()
         s = rng.choice([1, 1, 2])
         n = rng.choice([1, 1, 2])
-        if r < 0.4:
+        if r < 0.36:
             h = rng.randint(1, nh)
-            w = rng.choice([0, 0] + list(range(1, nweak + 1)))
-            script.append(("connect", s, n, h, w))
-            known.append((s, n, h, w, k))
-            k += 1
-        elif r < 0.45:
-            script.append(("connect", s, 3, rng.randint(1, nh), 0))
-        elif r < 0.47 and nweak >= 2:   # connect while another handler's weak argument is dying
+            ws = rng.choice(wseqs) if rng.random() < 0.5 else ()
+            uk = rng.choice("ttffcg")
+            if uk == "c":
+                us = list(clist)
+            elif known and rng.random() < 0.35:     # the arguments of an earlier connection again, or nearly
+                e = rng.choice(known)
+                h, us = e[2], list(e[4])
+                s, n = (e[0], e[1]) if rng.random() < 0.7 else (s, n)
+                ws = e[3] if rng.random() < 0.4 else _vary_ws(rng, e[3], nweak)
+            else:
+                us = [fresh] if rng.random() < 0.8 else [fresh, rng.choice([9, fresh])]
+                fresh += 1
+            script.append(("connect", s, n, h, list(ws), uk, us))
+            known.append((s, n, h, tuple(ws), tuple(us)))
+            nconn += 1
+        elif r < 0.40:
+            script.append(("connect", s, 3, rng.randint(1, nh), [], "t", [fresh]))
+        elif r < 0.42 and nweak >= 2:   # connect while another handler's weak argument is dying
             h = rng.randint(1, nh)
             w = rng.choice([0] + list(range(1, nweak + 1)))
             v = rng.choice([x for x in range(1, nweak + 1) if x != w])
-            script.append(("connect_kill", s, n, h, w, v))
-            known.append((s, n, h, w, k))
-            k += 1
-        elif r < 0.5 and known:      # the same callback with the same arguments once more
+            script.append(("connect_kill", s, n, h, [w] if w else [], v))
+            nconn += 1
+        elif r < 0.52 and known:        # disconnect by arguments: a connection made, or something close to one
             e = rng.choice(known)
-            script.append(("connect_dup", e[4]))
-            known.append((e[0], e[1], e[2], e[3], k))
-            k += 1
-        elif r < 0.55 and known:
-            e = rng.choice(known)
-            if rng.random() < 0.3:  # something that is not connected: wrong name / handler / tag
-                script.append(("disconnect", e[0], rng.choice([1, 2]), rng.randint(1, nh), e[3], e[4]))
+            s, n, h, ws, us = e
+            q = rng.random()
+            if q < 0.5:
+                pass
+            elif q < 0.6:
+                n, h = rng.choice([1, 2]), rng.randint(1, nh)
+            elif q < 0.85:
+                ws = _vary_ws(rng, ws, nweak)
             else:
-                script.append(("disconnect", *e))
-        elif r < 0.63 and known:
-            e = rng.choice(known)
-            script.append(("disconnect_by_key", e[0], rng.choice([e[1], e[1], 1, 2]), e[4]))
-        elif r < 0.68:
+                us = rng.choice([us + (9,), us[:-1], tuple(clist), (fresh,)])
+            uk = rng.choice("ttffg")
+            if tuple(us) == tuple(clist) and rng.random() < 0.5:
+                uk = "c"
+            script.append(("disconnect", s, n, h, list(ws), uk, list(us)))
+        elif r < 0.60 and nconn:
+            k = rng.randint(1, nconn + 1)
+            script.append(("disconnect_by_key", s, rng.choice([1, 1, 2]), k))
+        elif r < 0.65:
             script.append(("collect", rng.randint(1, nweak)))
+        elif r < 0.70:
+            c = list(clist)
+            q = rng.random()
+            if q < 0.35:
+                c.append(9)
+            elif q < 0.55 and c:
+                c[-1] = fresh
+                fresh += 1
+            elif q < 0.7 and c:
+                c.pop()
+            elif q < 0.8:
+                c = []
+            else:
+                c = [rng.choice([u for e in known for u in e[4]] or [1])]
+            c = c[:3]
+            if c != clist:
+                clist = c
+                script.append(("mutate", list(c)))
+        elif r < 0.74:
+            script.append(("drop_sender", s, rng.choice([0, 1, 1])))
         else:
             script.append(("emit", s, n))
     return script
 
 
-MC_CFG = """CONSTANTS NS = {ns} NN = 2 NH = {nh} NW = 1 MaxOps = {maxops} MaxConn = 3 Mode = "{mode}"
+MC_CFG = """CONSTANTS NS = {ns} NN = {nn} NH = {nh} NW = {nw} MaxWA = {maxwa} NU = {nu} UKinds = {{{uk}}} Mem = {mem}
+MaxOps = {maxops} MaxConn = 3 Mode = "{mode}"
 Behaviours = {{{behs}}}
 SPECIFICATION Spec
 INVARIANT EmitContract
 INVARIANT DeadWeakGone
 INVARIANT KeysUnique
+INVARIANT NoStaleKeys
 INVARIANT Terminates
 CHECK_DEADLOCK FALSE
 """
@@ -367,67 +553,172 @@ def _q(bs):
     return ", ".join(f'"{b}"' for b in bs)
 
 
+def _cfg(**kw):
+    d = {"ns": 1, "nn": 2, "nh": 3, "nw": 1, "maxwa": 1, "nu": 1, "uk": ["t"], "mem": False, "maxops": 3, "mode": "snapshot", "behs": BEHS}
+    d.update(kw)
+    d["uk"], d["behs"], d["mem"] = _q(d["uk"]), _q(d["behs"]), "TRUE" if d["mem"] else "FALSE"
+    return MC_CFG.format(**d)
+
+
+# deliberately wrong machineries the contract must refute (Signals.tla, Mode): name -> (constants, step that exposes it)
+MUST_FAIL = {
+    "live": ({"nh": 2, "behs": ["plain", "discSelf"]}, "emit_end"),
+    "alias": ({"nn": 1, "nh": 1, "uk": ["t", "f", "c"], "behs": ["plain"]}, None),
+    "prefix": ({"nn": 1, "nh": 1, "nw": 2, "maxwa": 2, "behs": ["plain"]}, "disconnect"),
+    "keyref": ({"nn": 1, "nh": 1, "mem": True, "behs": ["plain"]}, "drop_sender"),
+    "strongargs": ({"nn": 1, "nh": 1, "behs": ["plain"]}, "collect"),
+}
+
+
+def _mc_runs(quick):
+    """(name, cfg, workers): the good machinery over several slices of the operation alphabet."""
+    if quick:
+        return [
+            # every behaviour triple, one weak argument, tuples only: the dispatch
+            ("dispatch_S1_H3_ops3", _cfg(), 6),
+            # descriptors: 0..2 weak arguments out of two (prefix related, permuted), connect / disconnect by any of them
+            ("weakdesc_S1_N1_H2_W2_ops4", _cfg(nn=1, nh=2, nw=2, maxwa=2, maxops=4, behs=["plain", "true", "discLater"]), 3),
+            # user arguments as tuple / fresh list / the caller's own list that it goes on changing
+            ("userargs_S1_N1_H2_ops4", _cfg(nn=1, nh=2, uk=["t", "c"], maxops=4, behs=["plain", "true"]), 3),
+            # senders dropped with keys held / forgotten, stale keys
+            ("memory_S2_N1_H2_ops4", _cfg(ns=2, nn=1, nh=2, mem=True, maxops=4, behs=["plain", "discSelf", "killWeak"]), 2),
+        ]
+    return [
+        ("dispatch_S1_H3_ops4", _cfg(maxops=4), 6),
+        ("dispatch_S2_H2_ops4", _cfg(ns=2, nh=2, maxops=4, behs=["plain", "discSelf", "discEarlier", "emitAgain", "killWeak"]), 6),
+        ("weakdesc_S1_N1_H2_W2_ops5", _cfg(nn=1, nh=2, nw=2, maxwa=2, maxops=5, behs=["plain", "true", "discLater", "killWeak"]), 6),
+        ("userargs_S1_N1_H2_tfc_ops4", _cfg(nn=1, nh=2, uk=["t", "f", "c"], maxops=4, behs=["plain", "true", "discSelf"]), 6),
+        ("userargs_S1_N1_H1_U2_ops5", _cfg(nn=1, nh=1, nu=2, uk=["t", "f", "c"], maxops=5, behs=["plain", "discSelf"]), 6),
+        ("memory_S2_N1_H2_ops5", _cfg(ns=2, nn=1, nh=2, mem=True, maxops=5, behs=["plain", "discSelf", "killWeak", "connectNew"]), 6),
+        ("all_S1_N1_H2_W2_ops4", _cfg(nn=1, nh=2, nw=2, maxwa=2, mem=True, maxops=4, behs=BEHS), 6),
+    ]
+
+
 def _handle(chk, traces, res, label):
     for ti, l, why in res.rejects:
         tr = traces[ti]
         e = tr["ev"][l - 1]
         sig = {"event": e["t"], "behaviours": sorted(set(tr["beh"]))}
-        chk.reject(f"C14.{why}", sig, {"driver": label, "beh": tr["beh"], "script": tr["script"], "nweak": tr["nweak"],
+        chk.reject(f"C14.{why}", sig, {"driver": label, "family": tr.get("driver"), "beh": tr["beh"], "script": tr["script"], "nweak": tr["nweak"],
                                        "events_up_to_rejection": tr["ev"][:l]})
+
+
+def _model_checks(pool, quick):
+    """Exhaustive TLC runs of Signals.tla (submitted to the pool): the contract-conforming machinery over several slices of the
+    alphabet, and the deliberately wrong machineries, each of which must be refuted."""
+    futs = []
+    for name, cfg, workers in _mc_runs(quick):
+        futs.append(("mc", name, pool.submit(tlc.mc, "Signals", cfg, workers=workers, timeout=3000, heap="4g" if quick else "12g")))
+
+    def wrong():
+        return [(mode, tlc.mc("Signals", _cfg(mode=mode, **kw), workers=1, timeout=600, heap="2g")) for mode, (kw, _step) in MUST_FAIL.items()]
+    futs.append(("fail", "", pool.submit(wrong)))
+    return futs
+
+
+def _emit_calls(tr):
+    """Calls of each finished emit of a recorded trace (inner emits first), as descriptors."""
+    got, cur = [], []
+    for e in tr["ev"]:
+        if e["t"] == "emit_begin":
+            cur.append([])
+        elif e["t"] == "call" and cur:
+            aa = e["args"]
+            cur[-1].append([e["h"], [a - 1000 for a in aa if 1000 < a < 2000], [a for a in aa if 0 <= a < 1000]])
+        elif e["t"] == "emit_end" and cur:
+            got.append(cur.pop())
+    return got
+
+
+def _census(traces):
+    """What the recorded traces exercised (counts only; no verdicts)."""
+    kinds = {}
+    nontriv = set()
+
+    def cnt(k, n=1):
+        kinds[k] = kinds.get(k, 0) + n
+
+    for t in traces:
+        in_emit = 0
+        edited = False
+        live = {}            # (s, n) -> list of (h, ws, us) per the events (belief, for counting only)
+        clist_conns = 0      # connections made with the caller's own list so far
+        for e in t["ev"]:
+            ty = e["t"]
+            cnt(ty)
+            if ty == "emit_begin":
+                in_emit += 1
+            elif ty == "emit_end":
+                in_emit -= 1
+            elif in_emit and ty in ("connect", "disconnect", "disconnect_by_key", "collect"):
+                edited = True
+                cnt("edit_during_emit." + ty)
+            if ty == "connect" and not e["exc"]:
+                live.setdefault((e["s"], e["n"]), []).append((e["h"], tuple(e["ws"]), tuple(e["us"])))
+                cnt("connect.user_args_as." + e["ut"])
+                cnt(f"connect.weak_args.{len(e['ws'])}")
+                if e["ut"] == "c":
+                    clist_conns += 1
+            elif ty == "mutate":
+                if clist_conns:
+                    cnt("mutate.after_connect_with_that_list")
+            elif ty == "disconnect":
+                cnt("disconnect.user_args_as." + e["ut"])
+                lst = live.get((e["s"], e["n"]), [])
+                d = (e["h"], tuple(e["ws"]), tuple(e["us"]))
+                if d in lst:
+                    lst.remove(d)
+                    cnt("disconnect.names_a_connection")
+                else:
+                    cnt("disconnect.names_nothing")
+                    for (h, ws, us) in lst:
+                        if h == d[0] and us == d[2] and ws != d[1] and (ws[:len(d[1])] == d[1] or d[1][:len(ws)] == ws):
+                            cnt("disconnect.names_nothing.weak_args_prefix_of_a_connection")
+                            break
+                    for (h, ws, us) in lst:
+                        if h == d[0] and ws == d[1] and us != d[2]:
+                            cnt("disconnect.names_nothing.other_user_args_of_a_connection")
+                            break
+            elif ty == "disconnect_by_key" and e.get("stale"):
+                cnt("disconnect_by_key.key_of_a_dropped_sender")
+            elif ty == "collect":
+                for p in live:
+                    live[p] = [x for x in live[p] if e["w"] not in x[1]]
+            elif ty == "drop_sender":
+                cnt("drop_sender.keys_kept" if e["kept"] else "drop_sender.no_key_kept")
+                if e["nconn"]:
+                    cnt("drop_sender.with_connections" + (".keys_kept" if e["kept"] else ".no_key_kept"))
+                for p in list(live):
+                    if p[0] == e["s"]:
+                        live[p] = []
+        if edited:
+            nontriv.add(json.dumps([t["beh"], t["script"]]))
+    return kinds, nontriv
+
+
+NEED = ["edit_during_emit.disconnect_by_key", "edit_during_emit.collect", "edit_during_emit.connect", "edit_during_emit.disconnect",
+        "connect.user_args_as.t", "connect.user_args_as.f", "connect.user_args_as.c", "connect.user_args_as.g",
+        "connect.weak_args.0", "connect.weak_args.1", "connect.weak_args.2",
+        "mutate.after_connect_with_that_list", "disconnect.user_args_as.t", "disconnect.user_args_as.f", "disconnect.user_args_as.c",
+        "disconnect.names_a_connection", "disconnect.names_nothing", "disconnect.names_nothing.weak_args_prefix_of_a_connection",
+        "disconnect.names_nothing.other_user_args_of_a_connection", "disconnect_by_key.key_of_a_dropped_sender",
+        "drop_sender.with_connections.keys_kept", "drop_sender.with_connections.no_key_kept", "collect", "drop"]
 
 
 def run(chk):
     quick = chk.tier == "quick"
     rng = chk.rng
-    # ---- MC: the dispatch as coded (snapshot) satisfies the emit contract for all histories ----
-    if quick:
-        runs = [("snapshot", 1, 3, 3, BEHS)]
-    else:
-        runs = [("snapshot", 1, 3, 4, BEHS), ("snapshot", 2, 2, 4, ["plain", "discSelf", "discEarlier", "emitAgain", "killWeak"])]
-    for mode, ns, nh, maxops, behs in runs:
-        r = tlc.mc("Signals", MC_CFG.format(ns=ns, nh=nh, maxops=maxops, mode=mode, behs=_q(behs)), timeout=2400, heap="12g")
-        chk.add_mc(f"MC_Signals_{mode}_S{ns}_H{nh}_ops{maxops}", r)
-        if not r.ok:
-            chk.reject("C14.model." + str(r.violated), {"model": "Signals", "inv": r.violated}, {"tlc_trace": r.trace[-8:]})
-    # non-vacuity of the contract: walking the live list by index (the code before the fix) must be refuted
-    r = tlc.mc("Signals", MC_CFG.format(ns=1, nh=2, maxops=3, mode="live", behs=_q(["plain", "discSelf"])), timeout=600)
-    chk.cov["contract_refutes_live_index_dispatch"] = (r.violated == "EmitContract")
-    if r.violated != "EmitContract":
-        raise tlc.MachineryError("Signals.tla no longer refutes the live-index dispatch: the emit contract has become vacuous")
-    chk.cov["tlc_runs"].append({"run": "MC_Signals_live_must_fail", "violated": r.violated, "generated": r.generated, "wall_s": round(r.wall_s, 1)})
+    pool = cf.ThreadPoolExecutor(8 if quick else 3)   # quick: everything at once (13 TLC workers in all); thorough: 3 runs at a time
+    # ---- spec -> code: TLC behaviours give scripts and behaviour assignments (generated in the background) ----------
+    simcfg = _cfg(ns=2, nh=3, nw=2, maxwa=2, nu=2, uk=["t", "f", "c"], mem=True, maxops=9, behs=BEHS)
+    sim_fut = pool.submit(tlc.simulate, "Signals", simcfg, num=400 if quick else 6000, depth=45, seed=chk.seed, jobs=2 if quick else 6)
+    # ---- MC (in the background): Signals.tla satisfies the contract for all histories; wrong machineries are refuted ----
+    mc_futs = _model_checks(pool, quick)
 
     traces = []
     import urwid  # noqa: F401
     gc.collect()
     gc.freeze()  # keeps the per-trace gc.collect() in World.drop cheap
-    # ---- spec -> code: TLC behaviours give scripts and behaviour assignments --------------------
-    simcfg = MC_CFG.format(ns=2, nh=3, maxops=8, mode="snapshot", behs=_q(BEHS))
-    behs = tlc.simulate("Signals", simcfg, num=400 if quick else 6000, depth=40, seed=chk.seed, jobs=4 if quick else 14)
-    agree = used = 0
-    for b in behs:
-        script, calls = script_from_behaviour(b)
-        if script is None:
-            continue
-        used += 1
-        tr = run_script(list(b[0]["beh"]), 3, script)
-        tr["driver"] = "tlc-simulate"
-        traces.append(tr)
-        # compare the model's call order with the code's, emit by emit (finished emits, inner first)
-        got = []
-        cur = []
-        for e in tr["ev"]:
-            if e["t"] == "emit_begin":
-                cur.append([])
-            elif e["t"] == "call" and cur:
-                cur[-1].append(e["k"])
-            elif e["t"] == "emit_end" and cur:
-                got.append(cur.pop())
-        if got[: len(calls)] == calls:
-            agree += 1
-        else:
-            chk.divergence("spec_to_code_call_order", {"beh": tr["beh"], "script": tr["script"], "model": calls, "code": got})
-    chk.cov["spec_to_code_behaviours"] = used
-    chk.cov["spec_to_code_call_orders_agreeing"] = agree
     # ---- code -> spec: seeded random scripts beyond the model's bounds ---------------------------
     n_rand = 3000 if quick else 60000
     for i in range(n_rand):
@@ -436,49 +727,89 @@ def run(chk):
         beh = [rng.choice(BEHS) for _ in range(nh - 1)] + ["plain"]
         if "killWeak" not in beh and rng.random() < 0.5:
             beh[0] = "killWeak"
-        tr = run_script(beh, nh, random_script(rng, nh, nweak, rng.randint(4, 14)), nweak=nweak, maxconn=6)
+        tr = run_script(beh, nh, random_script(rng, nh, nweak, rng.randint(4, 16)), nweak=nweak, maxconn=6)
         tr["driver"] = "random"
         traces.append(tr)
-    # ---- code -> spec: directed families (behaviour triples, duplicate connections) ----------------
-    nd = 0
-    for beh, nh, script in directed_scripts():
+    # ---- code -> spec: directed families (behaviour triples, duplicate connections, descriptors, caller's list, dropped senders) ----
+    fam = {}
+    for name, beh, nh, script in directed_scripts():
         tr = run_script(beh, nh, script, nweak=2, maxconn=6)
-        tr["driver"] = "directed"
+        tr["driver"] = "directed." + name
         traces.append(tr)
-        nd += 1
-    chk.cov["directed_scripts"] = nd
-    res = tlc.validate("SignalsTrace", traces, batch_events=25000, timeout=1500)
+        fam[name] = fam.get(name, 0) + 1
+    chk.cov["directed_scripts"] = fam
+    n1 = len(traces)
+    tv1 = pool.submit(tlc.validate, "SignalsTrace", traces[:n1], batch_events=28000, timeout=1500, jobs=4 if quick else 6)
+    # ---- spec -> code ----------------------------------------------------------------------------------
+    behs = sim_fut.result()
+    agree = used = 0
+    for b in behs:
+        script, calls, beh = script_from_behaviour(b)
+        if script is None:
+            continue
+        used += 1
+        tr = run_script(beh, 3, script, nweak=2)
+        tr["driver"] = "tlc-simulate"
+        traces.append(tr)
+        # compare the model's call order with the code's, emit by emit (finished emits, inner first)
+        got = _emit_calls(tr)
+        if got[: len(calls)] == calls:
+            agree += 1
+        else:
+            chk.divergence("spec_to_code_call_order", {"beh": tr["beh"], "script": tr["script"], "model": calls, "code": got})
+    chk.cov["spec_to_code_behaviours"] = used
+    chk.cov["spec_to_code_call_orders_agreeing"] = agree
+    if not used:
+        chk.vacuity.append("driver.spec_to_code_behaviours")
+    res2 = tlc.validate("SignalsTrace", traces[n1:], batch_events=28000, timeout=1500, jobs=2 if quick else 6)
+    res = tv1.result()
     chk.add_tv("TV_SignalsTrace", res)
-    _handle(chk, traces, res, "c14")
-    kinds = {}
-    nontriv = set()
-    for t in traces:
-        in_emit = 0
-        edited = False
-        for e in t["ev"]:
-            kinds[e["t"]] = kinds.get(e["t"], 0) + 1
-            if e["t"] == "emit_begin":
-                in_emit += 1
-            elif e["t"] == "emit_end":
-                in_emit -= 1
-            elif in_emit and e["t"] in ("connect", "disconnect", "disconnect_by_key", "collect"):
-                edited = True
-                kinds["edit_during_emit." + e["t"]] = kinds.get("edit_during_emit." + e["t"], 0) + 1
-        if edited:
-            nontriv.add(json.dumps([t["beh"], t["script"]]))
+    _handle(chk, traces[:n1], res, "c14")
+    chk.add_tv("TV_SignalsTrace_spec_to_code", res2)
+    _handle(chk, traces[n1:], res2, "c14")
+    # ---- the model-checking results --------------------------------------------------------------------
+    refuted = {}
+    for kind, name, fut in mc_futs:
+        if kind == "mc":
+            r = fut.result()
+            chk.add_mc("MC_Signals_" + name, r)
+            if not r.ok:
+                chk.reject("C14.model." + str(r.violated), {"model": "Signals", "inv": r.violated, "run": name}, {"tlc_trace": r.trace[-8:]})
+            continue
+        for name, r in fut.result():
+            last = r.trace[-1].get("last", {}) if r.trace else {}
+            refuted[name] = {"violated": r.violated, "at": last.get("op"), "sentence": last.get("verdict")}
+            chk.cov["tlc_runs"].append({"run": f"MC_Signals_{name}_must_fail", "violated": r.violated, "at": last.get("op"),
+                                        "sentence": last.get("verdict"), "generated": r.generated, "wall_s": round(r.wall_s, 1)})
+            want = MUST_FAIL[name][1]
+            if r.violated != "EmitContract" or (want and last.get("op") != want):
+                raise tlc.MachineryError(f"Signals.tla no longer refutes the wrong machinery Mode={name!r} (got {r.violated} at {last}): "
+                                         "the contract has become vacuous")
+    pool.shutdown()
+    chk.cov["contract_refutes_live_index_dispatch"] = refuted["live"]["violated"] == "EmitContract"
+    chk.cov["contract_refutes_wrong_machineries"] = refuted
+    kinds, nontriv = _census(traces)
     chk.cov["clause_counts"] = kinds
     chk.cov["distinct_nontrivial"] = len(nontriv)
-    chk.cov["rule"] = ("scripts = top-level operations of TLC -simulate behaviours of Signals.tla plus seeded random scripts; executed on real "
-                       "urwid senders/handlers/weak arguments; non-trivial = distinct (behaviours, script) in which the handler list is edited "
-                       "while an emit is in progress")
-    for v in ("edit_during_emit.disconnect_by_key", "edit_during_emit.collect", "edit_during_emit.connect"):
+    chk.cov["rule"] = ("scripts = top-level operations of TLC -simulate behaviours of Signals.tla plus seeded random scripts plus directed families; "
+                       "executed on real urwid senders/handlers/weak arguments; non-trivial = distinct (behaviours, script) in which the handler "
+                       "list is edited while an emit is in progress")
+    for v in NEED:
         if not kinds.get(v):
             chk.vacuity.append("driver." + v)
+    for name in ("triples", "connect_kill", "duplicates", "weak_descriptors", "user_arg_kinds", "sender_dropped"):
+        if not fam.get(name):
+            chk.vacuity.append("driver.directed." + name)
     chk.sample(next((t for t in traces if any(e["t"] == "collect" for e in t["ev"])), traces[0]))
+    chk.sample(next((t for t in traces if any(e["t"] == "drop_sender" and e["kept"] for e in t["ev"])), traces[0]))
     chk.sample(traces[-1])
     chk.cov["trusted_base"] = ["TLC", "vf/props/c14.py World (real senders/handlers, shadow list only used to pick targets)",
-                               "CPython reference counting (weak arguments die when the last reference is dropped)"]
-    chk.assumptions += ["handlers that raise are outside the property", "cyclic-GC timing is not modelled; collection = dropping the last reference"]
+                               "CPython reference counting (weak arguments and senders die when the last reference is dropped)"]
+    chk.assumptions += ["handlers that raise are outside the property",
+                        "the cycle collector runs only where the harness calls it: an object is 'dead by reference counting' when it is gone "
+                        "right after the last application reference was dropped, 'dead after gc' after one gc.collect()",
+                        "user arguments are integers (their identity plays no role); a sender or weak argument passed as USER argument "
+                        "is the application's own reference, not the machinery's"]
 
 
 def replay(chk, path):
